@@ -56,7 +56,9 @@ class Drv:
             glen = math.hypot(e2z - e1, n2z - n1)
             ev["o"] = {"dist_hex": hx(dist), "step_dist_hex": hx(s * lsf_s), "g12_hex": hx(g12), "step_g12_hex": hx(a12 + p1[3]),
                        "g21_hex": hx(g21), "step_g21_hex": hx(a21 + p2[3]), "lsf_hex": hx(lsf), "step_lsf_hex": hx(lsf_s),
-                       "lsf": E_(lsf), "psf": [E_(v) for v in psf], "short": glen <= 100000.0, "passes": 0}
+                       "lsf": E_(lsf), "psf": [E_(v) for v in psf], "short": glen <= 100000.0, "passes": 0,
+                       "num": {"dist": E_(dist), "sdist": E_(s * lsf_s), "g12": E_(g12), "sg12": E_(a12 + p1[3]), "g21": E_(g21),
+                               "sg21": E_(a21 + p2[3]), "slsf": E_(lsf_s)}}
             ev["ret"] = (dist, g12, g21, lsf)
             ev["pt2_zone1"] = (e2z, n2z)
         except Exception as ex:
@@ -236,7 +238,7 @@ def selftest(evs):
     bd = next((e for e in evs if e["k"] == "DIR" and not e["exc"]), None)
     if bi is None or bd is None:
         return {"ran": False}
-    t1 = copy.deepcopy(strip(bi)); t1["o"]["dist_hex"] += "1"
+    t1 = copy.deepcopy(strip(bi)); t1["o"]["num"]["dist"] = E_(float(fix.dec(t1["o"]["num"]["dist"])) + 0.002)
     t2 = copy.deepcopy(strip(bd)); t2["o"]["e2d"] = fix.enc(fix.dec(t2["o"]["e2d"]) + Fraction(2, 1000))
     t3 = copy.deepcopy(strip(bi)); t3["o"]["lsf"] = fix.enc(fix.dec(t3["o"]["lsf"]) + Fraction(1, 10 ** 5))
     fails = validate([{"ev": [strip(bi)]}, {"ev": [strip(bd)]}, {"ev": [t1]}, {"ev": [t2]}, {"ev": [t3]}], None, None)
